@@ -14,7 +14,7 @@ use std::sync::{Mutex, OnceLock};
 
 pub struct C15;
 
-pub const PROGRAMS: [(&str, &str); 18] = [
+pub const PROGRAMS: [(&str, &str); 20] = [
     ("counter", "fn cnt(p) {\n  self + p\n}\nfn dsp(x) {\n  cnt(x) + cnt(1.0)\n}\n"),
     ("closures", "fn mk(n) {\n  |y| y + n\n}\nfn dsp(x) {\n  let a = mk(1.0)\n  let b = |q| q * 2.0\n  let c = | | 3.0\n  a(x) + b(x) + c()\n}\n"),
     ("enum", "type Dir = Up | Down | Left(float)\nfn f(d: Dir) {\n  match d {\n    Up => 1.0,\n    Down => 2.0,\n    Left(v) => v\n  }\n}\nfn dsp(x) {\n  f(Up) + f(Down) + f(Left(x))\n}\n"),
@@ -36,6 +36,10 @@ pub const PROGRAMS: [(&str, &str); 18] = [
     ("staged_record_pattern", "#stage(macro)\nfn mk() {\n  `{\n    let {f = g, a = b} = {f = |x| x + 1.0, a = 1.0}\n    g(b)\n  }\n}\n#stage(main)\nfn dsp(x) {\n  mk!() + x\n}\n"),
     ("staged_nested_tuple_pattern", "#stage(macro)\nfn mk(e) {\n  `{\n    let ((p, q), (r, s)) = (($e, |v| v * 2.0), (3.0, |v| v + 4.0))\n    q(p) + s(r)\n  }\n}\n#stage(main)\nfn dsp(x) {\n  mk!(`x) + mk!(`1.0)\n}\n"),
     ("tuples_if", "fn sw(t:(float,float)) {\n  (t.1, t.0)\n}\nfn dsp(x) {\n  let t = if (x) { (1.0, x) } else { (x, 2.0) }\n  let (p, q) = sw(t)\n  (p, q, now)\n}\n"),
+    // two modules declare a type alias of the same short name with different shapes and mention it unqualified (the
+    // candidates of the mangled-suffix fallback come out of hash maps)
+    ("same_type_name_in_two_modules", "mod left {\n  pub type alias Frame = (float, float)\n  fn spare(f: Frame, g: float) -> float {\n    g\n  }\n  pub fn mix(a, b) {\n    a + b\n  }\n}\nmod right {\n  pub type alias Frame = float\n  pub fn pass(g) {\n    g * 2.0\n  }\n}\nfn dsp(x) {\n  left::mix(x, 2.0) + right::pass(4.0)\n}\n"),
+    ("same_type_name_in_two_modules_used", "mod left {\n  pub type alias Frame = (float, float)\n  fn sum(f: Frame) -> float {\n    let (p, q) = f\n    p + q\n  }\n  pub fn mix(a, b) {\n    sum((a, b))\n  }\n}\nmod right {\n  pub type alias Frame = float\n  pub fn pass(g) {\n    g * 2.0\n  }\n}\nfn dsp(x) {\n  left::mix(x, 2.0) + right::pass(4.0)\n}\n"),
 ];
 
 #[derive(Clone, PartialEq, Debug)]
